@@ -60,7 +60,8 @@ fn main() {
                                     None => (None, false),
                                 };
                                 let fns: Vec<String> = im.items.iter().filter_map(|i| if let syn::ImplItem::Fn(f) = i { Some(f.sig.ident.to_string()) } else { None }).collect();
-                                impls.push(serde_json::json!({"trait": tr, "negative": neg, "self_ty": ts(&*im.self_ty), "params": params, "where": preds, "fns": fns, "unsafe": im.unsafety.is_some()}));
+                                let tokens = im.to_token_stream().to_string();
+                                impls.push(serde_json::json!({"tokens": tokens, "trait": tr, "negative": neg, "self_ty": ts(&*im.self_ty), "params": params, "where": preds, "fns": fns, "unsafe": im.unsafety.is_some()}));
                             }
                         }
                         serde_json::json!({"id": id, "impls": impls})
